@@ -10,9 +10,13 @@ import (
 	"sort"
 	"time"
 
+	"io"
+
 	"github.com/ClickHouse/clickhouse-go/v2"
 	clconfig "github.com/metrico/cloki-config"
 	"github.com/metrico/cloki-config/config"
+	"github.com/metrico/qryn/ctrl"
+	ctrllogger "github.com/metrico/qryn/ctrl/logger"
 	"verif/harness/gluemaint"
 	"verif/harness/hx"
 )
@@ -44,7 +48,7 @@ type EnvVar struct {
 
 // Glue: when present in a Run, the run goes through the extracted code instead of maintenance.Rotate.
 type Glue struct {
-	Kind   string   `json:"kind"`   // "all": RotateAll(dbos); "env": portCHEnv on env (+preset), then RotateAll
+	Kind   string   `json:"kind"`   // "all": RotateAll(dbos); "env": portCHEnv on env (+preset), then RotateAll; "ctrl": the real ctrl.Rotate over TCP
 	Dbos   []Dbo    `json:"dbos"`   // all: the configuration objects; env: DATABASE_DATA present before portCHEnv
 	Env    []EnvVar `json:"env"`    // env: the variables set (everything else portCHEnv reads is unset)
 	// observations
@@ -52,6 +56,48 @@ type Glue struct {
 	EnvErr bool     `json:"env_err"`
 	EnvOut []Dbo    `json:"env_out"` // DATABASE_DATA after portCHEnv
 	Connects int    `json:"connects"`
+	Boot     int    `json:"boot"`     // ctrl: bootstrap statements (CREATE / SHOW CREATE DATABASE) the server saw
+	SrvErrs  []string `json:"srv_errs,omitempty"`
+}
+
+var srv *tcpServer
+
+// ctrlOnce: the real ctrl.Rotate (InitDB for every database, then RotateAll -> rotateDB -> ConnectV2 -> Rotate)
+// through the real clickhouse-go client against the fake TCP server.
+func ctrlOnce(f *fake, g *Glue, fault *Fault) (log []Call, failed bool, pnc string) {
+	if srv == nil {
+		var err error
+		if srv, err = newTCPServer(); err != nil {
+			return nil, true, "fake server: " + err.Error()
+		}
+		ctrllogger.Logger.SetOutput(io.Discard)
+	}
+	f.log, f.n, f.fault = nil, 0, fault
+	srv.mu.Lock()
+	srv.f, srv.boot, srv.errs = f, nil, nil
+	srv.mu.Unlock()
+	if g.Dbos == nil {
+		g.Dbos = []Dbo{}
+	}
+	g.Env, g.EnvOut = []EnvVar{}, []Dbo{}
+	base := toBase(g.Dbos)
+	for i := range base {
+		base[i].Host, base[i].Port, base[i].Name = "127.0.0.1", srv.port(), "qryn_test"
+		base[i].User, base[i].Password = "default", ""
+	}
+	g.Parsed = parseTable(g.Dbos)
+	pnc = hx.Catch(func() {
+		cfg := clconfig.New(clconfig.CLOKI_READER, nil, "", "")
+		cfg.Setting.DATABASE_DATA = base
+		err := ctrl.Rotate(cfg, "qryn")
+		failed = err != nil
+	})
+	srv.mu.Lock()
+	g.Boot, g.SrvErrs = len(srv.boot), srv.errs
+	srv.f = nil
+	srv.mu.Unlock()
+	f.fault = nil
+	return f.log, failed, pnc
 }
 
 var envVars = []string{"CLICKHOUSE_DB", "CLUSTER_NAME", "CLICKHOUSE_SERVER", "CLICKHOUSE_PORT", "CLICKHOUSE_AUTH",
@@ -103,6 +149,9 @@ func parseTable(dbos []Dbo) []Parsed {
 
 // glueOnce runs the extracted code on f; same observations as rotateOnce.
 func glueOnce(f *fake, g *Glue, fault *Fault) (log []Call, failed bool, pnc string) {
+	if g.Kind == "ctrl" {
+		return ctrlOnce(f, g, fault)
+	}
 	if !glueGenerated {
 		return nil, true, "glue not generated: build the harness through checks/c19.py"
 	}
@@ -299,6 +348,10 @@ func genGlueSeq(r *rand.Rand, id int) Case {
 	if env {
 		c.Class = "glue-env"
 	}
+	viaCtrl := !env && r.Intn(2) == 0
+	if viaCtrl {
+		c.Class = "glue-ctrl"
+	}
 	cur := []Dbo{genDbo(r, true)}
 	if r.Intn(5) == 0 {
 		cur = append(cur, genDbo(r, true))
@@ -323,6 +376,9 @@ func genGlueSeq(r *rand.Rand, id int) Case {
 			}
 		}
 		g := &Glue{Kind: "all", Dbos: cur}
+		if viaCtrl {
+			g.Kind = "ctrl"
+		}
 		if env {
 			g = &Glue{Kind: "env", Env: curEnv, Dbos: []Dbo{}}
 			if r.Intn(8) == 0 {
